@@ -12,7 +12,7 @@ from .common import CD, LX, PC, PU, ckey
 
 P = "C14"
 EXPLANATION = (
-    "Static rules D14.1-D14.6 (DESIGN.md section 5, C14): the three transports of a generic request carry the same "
+    "Static rules D14.1-D14.7 (DESIGN.md section 5, C14): the three transports of a generic request carry the same "
     "(service, class/instance/attribute path, data) triple in the same order (byte-layout of both _setup_message bodies and of "
     "wrap_unconnected_send, with identical service normalisation), the Unconnected Send wrapper against CIP 3-5.5.4 (service 0x52 "
     "to class 6 instance 1, embedded length = len(message) of exactly the embedded message, pad iff odd, then the route), "
@@ -403,3 +403,37 @@ def d14_6(ctx):
         want = w if w is not None else (int(1234.5 * us) if isinstance(us, int) else None)
         ok = fields is not None and len(fields) == 3 and fields[-1] == want
         ctx.check(ok, key, fn, f"set_plc_time({w!r}) sends the time {want!r}", f"set_plc_time({w!r}) sends {fields!r}; the time field must be {want!r}" + (" (0 is a valid timestamp: the epoch; only None means 'use the client clock')" if w == 0 else ""), fields=str(fields))
+
+
+@rule(P, "D14.7", "T-WITNESS", floor=3)
+def d14_7(ctx):
+    """get_plc_time folded with the reply replaced by a witness: the microsecond count of the reply is reported unchanged, the
+    datetime is the Unix epoch plus that count, a refused request gives a falsy result carrying the error."""
+    import datetime as _dt
+
+    from ..miniinterp import Obj, run_function
+
+    lx = ctx.model.cls("pycomm3.logix_driver:LogixDriver")
+    fn = lx.methods.get("get_plc_time")
+    if fn is None:
+        ctx.undecided(ckey(lx.key + ".get_plc_time"), lx.node, "anchor vanished")
+        return
+    for us in (0, 86_400_000_000, 1_700_000_000_123_456):
+        def hook(call, env, it, _us=us):
+            if attr_path(call.func) == "self.generic_message":
+                return Obj(value={"µs": _us}, error=None)
+            if call_name(call) in ("Struct", "n_bytes", "ULINT"):
+                return Obj()
+            if call_name(call) == "Tag":
+                return ("Tag", [it.ev(a, env) for a in call.args], {k.arg: it.ev(k.value, env) for k in call.keywords})
+            return UNKNOWN
+
+        kind, res = run_function(ctx, lx.module, fn, {"self": Obj(), "fmt": "%Y-%m-%d %H:%M:%S"}, call_hook=hook, deep=False)
+        key = ckey(lx.key + ".get_plc_time", f"witness:{us}")
+        if kind == "unknown":
+            ctx.undecided(key, fn, f"get_plc_time not foldable: {res}")
+            continue
+        want_dt = _dt.datetime(1970, 1, 1) + _dt.timedelta(microseconds=us)
+        val = res[1][1] if kind == "return" and isinstance(res, tuple) and res[0] == "Tag" and len(res[1]) > 1 else None
+        ok = isinstance(val, dict) and val.get("microseconds") == us and val.get("datetime") == want_dt and val.get("string") == want_dt.strftime("%Y-%m-%d %H:%M:%S")
+        ctx.check(ok, key, fn, f"{us} us -> {want_dt.isoformat()}", f"get_plc_time reports {val!r} for a controller clock of {us} us (expected {want_dt.isoformat()})", us=us)
